@@ -264,6 +264,12 @@ Proof. eexists _, _. split; [reflexivity|]. split; [reflexivity|]. vm_compute. d
 (* =====================================================================================
    The disciplined fragment: write + flush + seek + read + tell (+ truncate last)
    ===================================================================================== *)
+Local Arguments zlen : simpl never.
+Local Arguments take : simpl never.
+Local Arguments drop : simpl never.
+Local Arguments put : simpl never.
+Local Arguments zeros : simpl never.
+
 Lemma zlen_zeros n : zlen (zeros n) = Z.max 0 n.
 Proof. unfold zeros, zlen. rewrite repeat_length. lia. Qed.
 Lemma zeros_nonpos n : n <= 0 -> zeros n = [].
@@ -315,6 +321,7 @@ Proof. unfold fcfg. intuition congruence. Qed.
 
 Definition wa_content (app : bool) (c : list Z) (rp : Z) (data : list Z) : list Z :=
   if app then c ++ data else put c rp data.
+Local Arguments wa_content : simpl never.
 
 Lemma s_write_chunk data : data <> [] ->
   take MAX_REQUEST_SIZE data <> [] /\
@@ -325,7 +332,7 @@ Proof.
   assert (Hz : zlen (take MAX_REQUEST_SIZE data) = Z.min MAX_REQUEST_SIZE (zlen data))
     by (apply zlen_take; unfold MAX_REQUEST_SIZE; lia).
   assert (H1 : 1 <= zlen (take MAX_REQUEST_SIZE data)) by (unfold MAX_REQUEST_SIZE in *; lia).
-  split; [intros E; rewrite E in H1; cbn in H1; lia|].
+  split; [intros E; rewrite E, zlen_nil in H1; lia|].
   split; [apply take_drop_len; unfold MAX_REQUEST_SIZE; lia|].
   pose proof (zlen_drop (zlen (take MAX_REQUEST_SIZE data)) data ltac:(lia)) as Hd.
   unfold zlen in *. lia.
@@ -424,7 +431,7 @@ Lemma winv_rbnil (f : sfile) :
   (fl_buffered f = false -> wbuf f = []) -> rbuf f = [] -> realpos f = pos f -> winv f.
 Proof.
   intros H1 H2 H3 H4 H5 H6 H7 Hrb Hrp. constructor; try assumption.
-  - rewrite Hrb. cbn. lia.
+  - rewrite Hrb, zlen_nil. lia.
   - unfold Lf, L, RemOf, sRem. rewrite Hrb, Hrp. reflexivity.
   - intros _. exact Hrb.
 Qed.
@@ -442,7 +449,7 @@ Definition sim (f : sfile) (r : rfile) : Prop :=
 
 Lemma view_nil f : wbuf f = [] -> view_content f = s_content (strm f) /\ view_pos f = pos f.
 Proof.
-  intros H. unfold view_content, view_pos, wa_content. rewrite H. cbn.
+  intros H. unfold view_content, view_pos, wa_content. rewrite H. cbn. rewrite ?zlen_nil.
   destruct (fl_append f); split; try reflexivity; try apply app_nil_r; lia.
 Qed.
 
@@ -476,7 +483,7 @@ Proof.
   - (* a non-empty prefix is written: the read buffer is empty and realpos = pos *)
     assert (Hwne : wbuf f <> []) by (rewrite HAB; discriminate).
     pose proof (w_excl _ W Hwne) as Hrb.
-    assert (Hrp : realpos f = pos f) by (rewrite (w_real _ W), Hrb; cbn; lia).
+    assert (Hrp : realpos f = pos f) by (rewrite (w_real _ W), Hrb; rewrite ?zlen_nil; lia).
     assert (HAne : a0 :: A' <> []) by discriminate.
     set (AA := a0 :: A') in *.
     assert (Hpos2 : realpos f2 = pos f2 /\ 0 <= pos f2 /\
@@ -489,7 +496,7 @@ Proof.
         rewrite HAB, <- app_assoc. split; [reflexivity|].
         replace (is_nil (AA ++ B)) with false by reflexivity.
         rewrite !zlen_app. destruct (is_nil B) eqn:EB.
-        + apply is_nil_true in EB. rewrite EB. cbn. lia.
+        + apply is_nil_true in EB. rewrite EB, zlen_nil. lia.
         + lia.
       - destruct (PosN eq_refl) as [P1 P2]. rewrite P1, P2, Hrp.
         pose proof (w_pos0 _ W). pose proof (zlen_nonneg AA).
@@ -537,7 +544,7 @@ Lemma buffer_write_sim (f : sfile) r d :
   (fl_buffered f = true -> winv f1) /\ sim f1 r1.
 Proof.
   intros W (S1 & S2 & S3 & S4 & S5) Hrb. cbn zeta.
-  assert (Hrp : realpos f = pos f) by (rewrite (w_real _ W), Hrb; cbn; lia).
+  assert (Hrp : realpos f = pos f) by (rewrite (w_real _ W), Hrb; rewrite ?zlen_nil; lia).
   split.
   { intros Hb. apply winv_rbnil; cbn; try assumption; try (intros Hb'; congruence); apply W. }
   destruct d as [|x d'].
@@ -697,7 +704,7 @@ Proof.
            ++ eexists _, _, _. split; [reflexivity|]. split; [reflexivity|]. split; assumption.
       * (* unbuffered: the buffer is empty, the data goes straight out *)
         pose proof (w_unbuf _ W Eb) as Hwb.
-        assert (Hrp : realpos f = pos f) by (rewrite (w_real _ W), G; cbn; lia).
+        assert (Hrp : realpos f = pos f) by (rewrite (w_real _ W), G; rewrite ?zlen_nil; lia).
         assert (Hrp0 : 0 <= realpos f) by (rewrite Hrp; apply W).
         destruct (write_all_srv fuel f d ltac:(lia) (w_srv _ W) (w_app _ W) Hrp0 (w_size _ W))
           as (f2 & E & C & Ok' & App' & Cfg & Rb & Wb & Sz' & PosN & PosA & Nil).
